@@ -26,16 +26,57 @@ def sh(cmd, cwd=None, env=None, timeout=None):
     return p.returncode, p.stdout + p.stderr
 
 
+def recheck(a):
+    """run the quick checks again against the stored patch (scratch worktree of /repo's HEAD, removed afterwards)"""
+    dst = os.path.join(VERIF, "seeded", a.seed_id)
+    meta = json.load(open(os.path.join(dst, "meta.json")))
+    scratch = "/tmp/seedchk_%s" % a.seed_id
+    sh("git -C /repo worktree remove --force %s" % scratch)
+    rc, out = sh("git -C /repo worktree add -q --detach %s HEAD" % scratch)
+    assert rc == 0, out
+    try:
+        rc, out = sh("git apply --whitespace=nowarn %s" % os.path.join(dst, "patch.diff"), cwd=scratch)
+        if rc != 0:
+            meta["recheck_error"] = "patch no longer applies to /repo HEAD: " + out[-300:]
+            print(a.seed_id, meta["recheck_error"])
+        else:
+            checks = a.checks.split(",") if a.checks else sorted(set([meta["property"]] + [k.split("@")[0] for k in meta.get("checks", {})]))
+            meta["checks"] = {}
+            for c in checks:
+                for seed in a.seeds.split(","):
+                    t0 = time.time()
+                    rc, out = sh("cd %s && EXACTPACK_REPO=%s ./check %s --tier quick --seed %s --no-evidence" % (VERIF, scratch, c, seed), timeout=3600)
+                    viol = [l for l in out.split("\n") if l.startswith("VIOLATION")]
+                    mons = sorted(set(l.split("monitor=")[1].split(" measure=")[0].split(" tol=")[0][:110] for l in out.split("\n") if l.strip().startswith("monitor=")))
+                    meta["checks"]["%s@seed%s" % (c, seed)] = dict(rc=rc, violations=len(viol), monitors=mons[:6], wall_s=round(time.time() - t0, 1))
+            meta["detected_by"] = sorted(set(k.split("@")[0] for k, v in meta["checks"].items() if v["rc"] == 1))
+            meta["rechecked"] = dict(repo_head=sh("git -C /repo rev-parse --short HEAD")[1].strip(), verif_head=sh("git -C %s rev-parse --short HEAD" % VERIF)[1].strip(),
+                                     when=time.strftime("%Y-%m-%dT%H:%MZ", time.gmtime()))
+            meta["ran"] = [r for r in meta.get("ran", []) if "./check" not in r] + [
+                "EXACTPACK_REPO=<patched scratch> ./check %s --tier quick --seed %s -> rc %d, %d VIOLATION line(s)" % (k.split("@")[0], k.split("seed")[1], v["rc"], v["violations"])
+                for k, v in meta["checks"].items()]
+    finally:
+        sh("git -C /repo worktree remove --force %s" % scratch)
+        shutil.rmtree(scratch, ignore_errors=True)
+    with open(os.path.join(dst, "meta.json"), "w") as f:
+        json.dump(meta, f, indent=1)
+    print(a.seed_id, "detected_by", meta.get("detected_by"), {k: (v["rc"], v["violations"]) for k, v in meta.get("checks", {}).items()})
+    return 0
+
+
 def main():
     ap = argparse.ArgumentParser()
     ap.add_argument("seed_id")
-    ap.add_argument("--src", required=True)
-    ap.add_argument("--property", required=True)
+    ap.add_argument("--src", default=None)
+    ap.add_argument("--property", default=None)
     ap.add_argument("--checks", default=None)
     ap.add_argument("--tests", default=None)
     ap.add_argument("--full-suite", action="store_true")
     ap.add_argument("--seeds", default="0")
+    ap.add_argument("--recheck", action="store_true", help="seed already confirmed and stored under /verif/seeded/<id>: only run the checks again")
     a = ap.parse_args()
+    if a.recheck:
+        return recheck(a)
     sd = os.path.join(a.src, "_seed")
     scratch = "/tmp/seedchk_%s" % a.seed_id
     sh("git -C /repo worktree remove --force %s" % scratch)
